@@ -117,7 +117,9 @@ Definition run_codec (e : bytes) (args : list bytes) : option bytes :=
       else if is e "skip" then Some (show_res (fun r => str "left=" ++ show_N (len r)) (skip p (fuel_for bs) bs))
       else None
   | [a] =>
-      if is e "get_chunk" then Some (show_bytes_res (get_chunk (unhex a)))
+      if is e "dec_eventtime" then
+        Some (show_res (fun t => show_Z (fst t) ++ str "." ++ show_N (snd t)) (dec_eventtime (unhex a)))
+      else if is e "get_chunk" then Some (show_bytes_res (get_chunk (unhex a)))
       else if is e "unmarshal_packed" then Some (show_res show_entries (unmarshal_packed (unhex a)))
       else if is e "marshal_packed" then Some (show_bytes_res (marshal_packed (desc_entries a)))
       else if is e "M_entry_list" then Some (show_bytes_res (M_entry_list (desc_entries a)))
